@@ -33,6 +33,7 @@ type Feat struct {
 	PDup           float64 // probability of deliberately colliding with a provided key
 	FaultRate      float64
 	FaultInv       float64
+	FaultCB        float64 // probability that a function's callback panics
 	PRetry         float64
 	Slow           bool
 	VisStr         float64 // probability weight of Visualize/String ops
@@ -745,6 +746,18 @@ func (g *genCtx) genFaults() {
 			}
 		}
 		g.h.Faults = append(g.h.Faults, fl)
+	}
+	for i := range g.h.Funcs {
+		f := &g.h.Funcs[i]
+		if f.Callback && f.Role != RoleInv && g.r.P(g.ft.FaultCB) {
+			// the callback panics (never recovered by dig): whatever the
+			// function committed must stay, nothing runs twice
+			fl := Fault{Fn: f.ID, From: 0, To: 1, Kind: FaultCBPanic}
+			if g.r.P(0.3) {
+				fl.To = -1
+			}
+			g.h.Faults = append(g.h.Faults, fl)
+		}
 	}
 }
 
